@@ -15,6 +15,7 @@ LEVEL = dict(
                 "arbitrary operation sequences or page content after edits.",
     trusted_base=["rustc MIR and callee resolution"],
 )
+LEVEL["rule_text"] += "; change_page_content asks nothing of the /Contents array but len == 1 (an empty array is replaced like any other); inherited_resources reads and resolves the ancestors' /Resources entry itself, direct or referenced"
 
 MAX_ID_WRITERS = {
     "Document::add_object": r"^Add\(\*self\.max_id,1\)$",
@@ -141,6 +142,21 @@ def _run(ctx):
                     reads_parent = True
         ctx.ob("R-ORDER", "no-shadowing-of-inherited-resources|%s" % fn, (not creates) or reads_parent, "creating /Resources consults the Parent chain", b.where(),
                what="%s creates an empty /Resources on a page without looking at the Parent chain: a page that inherits /Font or /XObject from its ancestors loses them as soon as add_xobject/add_graphics_state is called" % fn)
+    # 5a. ... and what the ancestors hold is taken whichever way they hold it: /Resources of a /Pages node may be a direct dictionary
+    # or a reference (ISO 32000-1 Table 29); the walk reads the entry itself and resolves it (get_deref + as_dict).  Going by a list
+    # of object ids of resource dictionaries sees only the referenced ones
+    ir = F.fn("Document::inherited_resources")
+    okd = False
+    for x in lib.local_scope(F, ir):
+        for c in x.calls:
+            if c.local and re.search(r"Dictionary::get_deref$", c.cname) and len(c.args) >= 2 and lib._const_bytes_through(x, c.args[1]) == b"Resources":
+                okd = True
+            if c.local and re.search(r"Dictionary::get$", c.cname) and len(c.args) >= 2 and lib._const_bytes_through(x, c.args[1]) == b"Resources" \
+                    and any(c2.local and re.search(r"Document::dereference$", c2.cname) for c2 in x.calls):
+                okd = True
+    ctx.ob("R-ORDER", "inherited-resources-direct-or-referenced", okd, "inherited_resources reads an ancestor's /Resources entry and resolves it (direct dictionary or reference)", ir.where(),
+           what="Document::inherited_resources no longer reads the /Resources entry of the ancestors itself (get_deref): resources an ancestor holds as a direct dictionary are not "
+                "seen, the page gets an own /Resources without them, and the inherited fonts and graphics states are lost to it as soon as add_xobject / add_graphics_state is called")
     # 5b. an empty sub-dictionary (/XObject, /ExtGState, /Resources itself) is put into a dictionary only where the key is ABSENT:
     # the store of `Dictionary::new()` is dominated by `!has(key)` (or by `get(key)` itself being an error) for the same key —
     # any other test (is it a direct dictionary? is it non-empty?) can be true for an entry that exists and would replace it
@@ -233,6 +249,37 @@ def outline_ids(ctx, F):
            what="outline_child changes the shared id counter other than by += 1 (%s)" % ups)
 
 
+def content_replacement(ctx, F):
+    """change_page_content puts the new content in place whatever the page had: a single stream (referenced directly or as
+    the only element of an array) is rewritten, and EVERY other array — two streams, ten, or none — is replaced by one new
+    stream.  The only question asked about the array is therefore `len == 1`; a test that also sets the empty array apart
+    (`len > 1`, `first()`, `is_empty()`) leaves a page with `/Contents []` unchanged while reporting success."""
+    cp = F.fn("Document::change_page_content")
+    scope = lib.local_scope(F, cp)
+    hv = set()
+    for x in scope:
+        hv |= lib.handled_variants(x, "object::Object")
+    ctx.ob("R-SIB", "contents-forms|change_page_content", {"Reference", "Array"} <= hv, "change_page_content has arms for a reference and an array", cp.where(),
+           what="change_page_content has no arm for /Contents given as %s: the edit is silently dropped for such pages" % sorted({"Reference", "Array"} - hv))
+    lens, odd = [], []
+    for x in scope:
+        for bi in range(x.n):
+            t = x.term(bi)
+            if t["k"] != "switch":
+                continue
+            with x.alpha():
+                cnd = x.sname(t["d"], 5).replace("&", "").replace("*", "")
+            if "len(" in cnd:
+                (lens if re.match(r"^(Eq|Ne)\(len\(.*\),1\)$", cnd) else odd).append(cnd[:60])
+        for c in x.calls:
+            if re.search(r"(slice::<impl \[T\]>|Vec::<.*>)::(first|last|is_empty|split_first|split_last)$", c.fn or c.name):
+                odd.append((c.fn or c.name).rsplit("::", 1)[-1] + "()")
+    ctx.ob("R-ORDER", "array-replaced-unless-single|change_page_content", bool(lens) and not odd,
+           "the only test on the /Contents array is len == 1 (%s)" % lens, cp.where(),
+           what="change_page_content asks more of the /Contents array than `len == 1` (%s): an array that is neither a single stream nor covered by the other test "
+                "(the empty array) falls through, the page keeps no content at all and the call reports success" % (odd or "the len == 1 test is gone"))
+
+
 def content_edits(ctx, F):
     """Appending content to a page keeps what is there: /Contents is either a reference to one stream or an array of them
     (ISO 32000-1 Table 30; both are what get_page_contents reads), and add_page_contents carries both forms over into the new
@@ -291,6 +338,7 @@ def op_place_(o):
 def run(ctx):
     _run(ctx)
     content_edits(ctx, ctx.facts("default"))
+    content_replacement(ctx, ctx.facts("default"))
     # the incremental variants of the resource helpers: what they store into the update
     import prop_c07
     prop_c07.update_stores_copies_only(ctx, ctx.facts("default"))
